@@ -438,7 +438,7 @@ func wire(args []string) {
 	thorough := kit.Thorough()
 	nObj := 4
 	if thorough {
-		nObj = 40
+		nObj = 24
 	}
 	for i := 0; i < nObj; i++ {
 		withParent := i%2 == 0
